@@ -6,13 +6,13 @@ V = os.path.dirname(os.path.dirname(os.path.abspath(__file__)))
 # property -> (technique, level text, level note, design ref)
 P = {
  "C01": ("reference-solution monitor (closed-form families + independent GBS reference), tolerance-ladder trend monitor",
-         "Every returned sample of thousands of generated solve_ivp runs is compared with the exact solution against the bound K_m * A * naccpt * (atol + rtol|y|); tolerance ladders check that errors shrink; RK4 order by step halving. Held on the executions observed; constants calibrated with >=10x margin.",
+         "Every returned sample of thousands of generated solve_ivp runs is compared with the exact solution against the bound K_m * A * naccpt * (atol + rtol|y|), also on time axes compressed by 2^4..2^20 (same limits by exact scaling); tolerance ladders check that errors shrink; RK4 order by step halving. Held on the executions observed; constants calibrated with >=10x margin.",
          "closed-form solutions evaluated in f64; amplification factor A computed from the exact sensitivity; GBS reference self-certified (H vs H/2 agree to 1e-12); calibrated constants K_m", "§4 C01"),
  "C02": ("tableau extraction by scripted right-hand side + complete rooted-tree order conditions; accept/reject probing of the embedded estimator; empirical local-order slopes; Pade check for Radau",
-         "The Butcher tableau the code actually applies is read off the stepper's own calls (first and later steps) and checked against all order conditions up to p (exhaustive over rooted trees); estimator order by accept/reject on tree-scripted inputs; local error slopes on nonlinear closed-form problems; Radau step vs (2,3) Pade approximant.",
+         "The Butcher tableau the code actually applies is read off the stepper's own calls (first and later steps, clipped steps, the step after a ModifiedSolution answer) and checked against all order conditions up to p (exhaustive over rooted trees); estimator order by accept/reject on tree-scripted inputs; local error slopes on nonlinear closed-form problems; Radau step vs (2,3) Pade approximant.",
          "order-condition theory (Butcher); extraction is exact arithmetic (h = 1, y0 = 0, unit-vector answers)", "§4 C02"),
  "C03": ("invariant monitors on Solution and on the recorded call log of instrumented IVP callbacks, over an option sweep",
-         "Direct predicates (monotone times, start/end, status honesty, evaluation times inside the interval, dimensions, finiteness) on every run of a large randomised and adversarial option sweep.",
+         "Direct predicates (monotone times, start/end, status honesty, evaluation times inside the interval, dimensions, finiteness) on every run of a large randomised and adversarial option sweep (incl. short spans from degenerate starts).",
          "harness-owned IVP implementation records every ode/events/jac call; rounding slack R_t = 4 eps max(|x0|,|xend|)", "§4 C03"),
  "C04": ("child-process execution with logical evaluation budget, stall detection and CPU limit; exit-status oracle",
          "Each hostile solve_ivp call (19 kinds of blow-up, domain exit, NaN/inf, discontinuity, chattering, overflow-sized right-hand sides, sub-ulp intervals) runs in its own child process under a right-hand-side evaluation budget (>=1000x head-room) and a CPU limit; termination is decided as bounded work (no progress of the evaluated times between two windows of 1e6 calls), panics by exit status, and the returned prefix is validated.",
@@ -21,7 +21,7 @@ P = {
          "Requested times are placed on / next to / inside the accepted-step grid revealed by a pilot run; reported times must equal the request bit for bit, values must equal sol(t) of the dense twin bitwise and the exact solution within the C01/C07 bound; early-stop prefix rules checked against the twin without t_eval.",
          "C12 (grid independent of output options) is verified per case by the ode-log hash before the twin is used", "§4 C05"),
  "C06": ("endpoint-identity and span monitors on every stored dense segment and on the interpolants handed to SolOut",
-         "For every accepted step of every run: interpolant equals the stored state at both step ends (rounding bound), sol(t_i) reproduces samples, sol succeeds exactly on the covered span and fails outside, NotEnabled when disabled.",
+         "For every accepted step of every run: interpolant equals the stored state at both step ends (rounding bound), sol(t_i) reproduces samples, sol succeeds exactly on the covered span and fails outside, sol_many equals sol for every order of the query times, interpolants handed over on demand (XOut, dense_output off) obey the same identities, NotEnabled when disabled.",
          "rounding bound 64 eps (|y| + (|h| + |t|) max(|f|, |secant slope|))", "§4 C06"),
  "C07": ("continuous order conditions on extracted dense weights b_j(theta) (exhaustive over rooted trees) + empirical interior error slopes + Radau collocation polynomial check",
          "Dense-output weights are extracted from the real interpolant and checked against all continuous order conditions up to q at many theta; interior error slopes on closed-form problems for all six methods; BDF interior vs endpoint error on whole runs.",
@@ -30,7 +30,7 @@ P = {
          "Every reported event of thousands of runs (harness-owned event functions, roots placed relative to the pilot grid) is checked for location inside its step, y_e = sol(t_e), root quality, direction, order and shapes.",
          "harness-owned event functions; root criterion |g| small or sign bracket within delta", "§4 C08"),
  "C09": ("sign-pattern monitor over consecutive accepted endpoints + known-root monitor (g = t - c)",
-         "For each pair of consecutive reported points the sign pattern of every event function decides how many events must be reported in that step; single known roots must be found exactly once at the right place.",
+         "For each pair of consecutive reported points the sign pattern of every event function decides how many events must be reported in that step; single known roots must be found exactly once at the right place; with a terminal function in the list the interval cut by the stop is judged through the run without the terminal flag.",
          "exact zeros at endpoints make the adjacent intervals inconclusive (allowed either way)", "§4 C09"),
  "C10": ("twin-run differential monitor (terminal vs non-terminal configuration)",
          "Pairs of runs differing only in the terminal flag: status, final sample = event point bitwise, nothing later, earlier same-step events kept, identical prefix.",
@@ -39,7 +39,7 @@ P = {
          "Accepted steps (dense segments / callback intervals) never exceed max_step; first trial step read from the ode log equals first_step; budgeted runs compared bit for bit with the prefix of the unbudgeted twin and status checked.",
          "attempt length and c_s = 1 stage measured at run time by a single-step probe", "§4 C11"),
  "C12": ("bitwise metamorphic monitor across the 8 subsets of {t_eval, dense_output, events}: hash of the complete ode call log, counters, final state",
-         "The complete sequence of right-hand-side calls (times and states, accepted and rejected attempts) must be bit-identical across all output-option subsets and across repetitions.",
+         "The complete sequence of right-hand-side calls (times and states, accepted and rejected attempts) must be bit-identical across all output-option subsets (requested times on, and 1..12 ulps beside, step ends) and across repetitions; low-level builders: dense on/off twins and callback-free twins.",
          "ode-log hash collision probability negligible (64-bit FNV over all bit patterns)", "§4 C12"),
  "C13": ("metamorphic pair monitors (time reflection, 2^k scaling, scalar-vs-vector tolerance, identical copies), bitwise where the property says so",
          "Pairs of exactly equivalent problems must yield bitwise equivalent trajectories (explicit methods; implicit with user Jacobian); copies relation judged on first step, step counts and accuracy relative to the single system.",
@@ -48,7 +48,7 @@ P = {
          "Radau/BDF on stiffness ratios 1e2..1e10 (linear and nonlinear Prothero-Robinson ladders with closed-form solutions, Robertson, Van der Pol, linear kinetics networks): Success, error within tolerance scale, step count bounded independently of the ratio (flat on the slow manifold), linear invariants preserved.",
          "reference table generated by two independent routes (SciPy Radau/LSODA, ivp's other implicit method)", "§4 C14"),
  "C15": ("differential monitors across mass/Jacobian sources and storages (bitwise where stated) + DAE residual monitor",
-         "Mass-matrix form vs explicit form within tolerance; index-1 DAE constraints satisfied; default mass = identity for every storage; Identity/Full/Banded storages bit-identical; analytic vs finite-difference Jacobian within tolerance.",
+         "Mass-matrix form vs explicit form within tolerance; index-1 DAE constraints satisfied; default mass = identity for every storage; Identity/Full/Banded storages bit-identical (Jacobian storage also under mass matrices wider than the Jacobian band); analytic vs finite-difference Jacobian within tolerance.",
          "closed-form or reference solutions as in C01/C14", "§4 C15"),
  "C16": ("backward-error monitor with double-double residuals and factors read back from the code; exhaustive small-integer enumeration with exact rational elimination oracle",
          "Exhaustive over small-integer matrices up to 3x3 and >=2e4 random real/complex systems (n<=12, six structural kinds): componentwise Higham bound, multipliers <= 1, exactly singular inputs rejected with SingularMatrix, argument errors, solve modifies only b, no panic.",
@@ -60,7 +60,7 @@ P = {
          "nfev/njev/naccpt/nstep compared with what the instrumented right-hand side, Jacobian and output callbacks actually observed.",
          "stepper vs differencing evaluations separated by delegating the default Jacobian to an inner IVP under a flag", "§4 C18"),
  "C19": ("trace-specification monitor on recorded SolOut callback sequences under scripted callback behaviours",
-         "Recorded callback traces of the low-level builders are checked against the protocol (initial call, contiguity, exactly once per accepted step, interrupt stops at once, ModifiedSolution re-evaluates at the written state, no-op and doubling relations).",
+         "Recorded callback traces of the low-level builders are checked against the protocol (initial call, contiguity, exactly once per accepted step, interrupt stops at once, ModifiedSolution re-evaluates at the written state, no-op and doubling relations, continuation from a far-away written state against a closed-form flow).",
          "harness-owned SolOut records every callback and the probe's call counter at entry", "§4 C19"),
  "C20": ("differential monitor: Python extension vs Rust API on a shared case table (bitwise), layout/shape predicates, sparsity-group monitor on the Python RHS log",
          "The PyO3 module is built from the working tree and driven from python3-vt; every case's OdeResult is compared with the Rust Solution for the same case bit for bit, shapes/status/success checked, args/jac/jac_sparsity behaviour observed through call logs.",
